@@ -139,12 +139,21 @@ def generate(prop, rng, index, tier):
     rng.shuffle(order)
     template["var"]["missing_cells"] = sorted(rng.sample(range(ncell), rng.randint(0, max(0, ncell // 3)))) \
         if template["var"]["fill"] is not None else []
+    odd_shape = None
+    if rng.random() < 0.06:
+        # the results have another shape than the template's variable (one that numpy would broadcast)
+        full = [n for _, n in dims]
+        cands = [full[1:]] if len(full) >= 2 else [[]]
+        cands += [[1 if i == k else n for i, n in enumerate(full)] for k in range(len(full)) if full[k] != 1]
+        cands = [c for c in cands if c != full]
+        if cands:
+            odd_shape = rng.choice(cands)
     overwrite = None
     if rng.random() < 0.25:
         overwrite = {"grid": rng.randrange(ngrids), "dtype": rng.choice(["f8", "i8"]), "masked": rng.random() < 0.5,
                      "salt": rng.randrange(50)}
     return {"engine": ENGINE, "prop": "C18", "template": template, "grids": grids, "write_order": order, "reads": reads,
-            "second_write": second, "template_reads": treads, "overwrite": overwrite}
+            "second_write": second, "template_reads": treads, "overwrite": overwrite, "odd_shape": odd_shape}
 
 
 # ------------------------------------------------------------------------------------------------
@@ -220,6 +229,37 @@ def execute(sc):
             mon.install(list(program.command_library.values()))
             try:
                 arrays = {}
+                odd = sc.get("odd_shape")
+                if odd is not None and tuple(odd) != tuple(shape):
+                    # every result has the odd shape; the write must be refused, not broadcast into the template's shape
+                    k = int(numpy.prod(odd)) if odd else 1
+                    for g in sc["grids"]:
+                        data = numpy.array([float(v) if isinstance(v, float) and v == v else 1.0 for v in g["values"][:k]] or [1.0],
+                                           dtype="float64").reshape(tuple(odd))
+                        cmd = Command(g["name"])
+                        cmd.is_finished = True
+                        cmd._result = numpy.ma.array(data, mask=numpy.zeros(tuple(odd), dtype=bool))
+                        program.commands[g["name"]] = cmd
+                    names = [sc["grids"][i]["name"] for i in sc["write_order"]]
+                    program.add_command(program.find_command_class("EEMSWrite"), "__write__",
+                                        {"OutFileName": "out.nc", "OutFieldNames": names, "DimensionFileName": tmpl,
+                                         "DimensionFieldName": t["var"]["name"]})
+                    log.emit("op-begin", op="WRITE-ODD-SHAPE", shape=list(odd))
+                    try:
+                        program.commands["__write__"].run()
+                        err = None
+                    except SimAbort:
+                        raise
+                    except Exception as exc:  # noqa
+                        err = exc
+                    res.probe("results of another shape than the template's variable")
+                    if err is None:
+                        res.violate("C18.write", "C18.write mis-shaped-result-accepted",
+                                    "results of shape %r were written into a template variable of shape %r without complaint"
+                                    % (tuple(odd), tuple(shape)))
+                    elif not isinstance(err, MPilotError):
+                        res.violate("C18.write", "C18.write raised %s odd-shape" % type(err).__name__, repr(err)[:200])
+                    return _finish(sc, res)
                 for g in sc["grids"]:
                     data = numpy.array(g["values"], dtype={"i8": "int64", "u8": "uint64"}.get(g["dtype"], "float64")).reshape(shape)
                     if g["maskkind"] == "nomask":
